@@ -9,7 +9,8 @@
 (* A case is one configuration (abstract names; the harness maps them to   *)
 (* strings that need YAML quoting) optionally followed by a second one     *)
 (* applied over it (same servers, reconfigured), and a save history        *)
-(* (save A; somebody else writes B; save A again; read).                   *)
+(* (save A; somebody else writes B; save A again; read; edit what was read  *)
+(* into something not closed; the save is refused; read).                  *)
 (***************************************************************************)
 EXTENDS Integers, Sequences, FiniteSets, TLC, Json, IOUtils, SequencesExt
 
@@ -20,7 +21,8 @@ RangeS(s) == {s[i] : i \in DOMAIN s}
 
 Locs == {<<>>} \cup {<<[name |-> n, up |-> u]>> : n \in {"l1"}, u \in {"u1", "u2", "ux"}}
              \cup {<<[name |-> "l1", up |-> u], [name |-> "l2", up |-> v]>> : u \in {"u1", "ux"}, v \in {"u1", "u2", "ux"}}
-SrvLocs == {<<"l1">>, <<"l1", "l2">>, <<"lx">>, <<"l2", "lx">>}
+(* "": a blank entry in a server's location list names no location *)
+SrvLocs == {<<"l1">>, <<"l1", "l2">>, <<"lx">>, <<"l2", "lx">>, <<"">>, <<"l1", "">>}
 Servers == {<<[locs |-> sl, cache |-> c, compress |-> p]>> : sl \in SrvLocs, c \in {"c1", "cx"}, p \in {"", "p1", "px"}}
              \cup {<<[locs |-> <<"l1">>, cache |-> "c1", compress |-> ""], [locs |-> sl, cache |-> c, compress |-> "p1"]>> :
                      sl \in SrvLocs, c \in {"c1", "cx"}}
